@@ -164,7 +164,11 @@ func TestWorker(t *testing.T) {
 		if p := os.Getenv("VERIF_CURRENT"); p != "" {
 			_ = os.WriteFile(p, []byte(cur), 0o644)
 		}
+		t0 := time.Now()
 		res := ExecRun(t, sc, sim.NewTapes(rs), tier, false)
+		if os.Getenv("VERIF_TIMING") != "" {
+			fmt.Fprintf(os.Stderr, "TIMING idx=%d scenario=%s wall_ms=%d steps=%d sim_s=%.1f\n", idx, sc.Name, time.Since(t0).Milliseconds(), res.Steps, float64(res.SimNanos)/1e9)
+		}
 		out.Runs++
 		out.PerScenario[sc.Name]++
 		out.SimNanos += res.SimNanos
